@@ -164,7 +164,8 @@ impl StateMachine<'_> {
         let mut handled_line = false;
         let (_mode_info, file_event) =
             parse_diff_header_line(&self.line, self.source == Source::GitDiff);
-        let name = get_repeated_file_path_from_diff_line(&self.diff_line).unwrap_or_default();
+        let mut name = get_repeated_file_path_from_diff_line(&self.diff_line).unwrap_or_default();
+        utils::path::relativize_path_maybe(&mut name, self.config);
         match file_event {
             FileEvent::Removed => {
                 self.minus_file = name;
@@ -243,7 +244,11 @@ impl StateMachine<'_> {
                 _ => Cow::from(file),
             };
             let label = format_label(&self.config.file_modified_label);
-            let name = get_repeated_file_path_from_diff_line(&self.diff_line).unwrap_or_default();
+            let mut name =
+                get_repeated_file_path_from_diff_line(&self.diff_line).unwrap_or_default();
+            // Like the paths taken from the ---/+++ lines: with --relative-paths the name is shown
+            // (and resolved for the hyperlink) relative to the user's directory.
+            utils::path::relativize_path_maybe(&mut name, self.config);
             let line = format!("{}{}", label, format_file(&name));
             // This is this file's header: it must not be written once more when this function
             // is next called (a "commit" line is followed by a "diff" line, and both call it).
